@@ -61,6 +61,14 @@ def maxList : List Int → Except Err Int
   | [] => .error .other
   | x :: xs => .ok (xs.foldl imax x)
 
+/-- stable insertion behind every element whose key is not larger -/
+def insertByKey {α} (key : α → Int) (x : α) : List α → List α
+  | [] => [x]
+  | y :: ys => if key x < key y then x :: y :: ys else y :: insertByKey key x ys
+
+/-- `xs.sort(key=...)`: Python's sort is stable -/
+def sortByKey {α} (key : α → Int) (xs : List α) : List α := xs.foldl (fun acc x => insertByKey key x acc) []
+
 /-! ### Python dicts (insertion ordered) as association lists -/
 
 def dictHas {κ ν} [DecidableEq κ] (d : List (κ × ν)) (k : κ) : Bool := d.any fun p => decide (p.1 = k)
